@@ -23,6 +23,8 @@ A *case* is one message flow over circuit A plus at most one fault:
     Benches "dsX<h>" / "dsO<h>" put the exit / the originator on a real dual-stack DispatcherEndpoint (IPv4 + IPv6
     SimEndpoints); there every fault aimed at that node is delivered to its IPv4 address and (via6) to its IPv6 address,
     and `cleartext` sends a well-formed, unencrypted message of every cell message id with either flag value.
+    Benches "teX<h>" / "teO<h>" / "seX<h>" / "seO<h>" put that node on TunnelEndpoint(SimEndpoint) resp.
+    StatisticsEndpoint(SimEndpoint) and run the same clean, xor, foreign and cleartext cases.
 
 Oracle (see notes/C04.md): clean runs - exact single delivery with the right destination/origin/circuit; on every link
 the body has exactly h-link layers and peels to the reference plaintext with the originator's and with the nodes' own
@@ -40,6 +42,7 @@ import sys
 import traceback
 
 from ipv8.messaging.anonymization.community import TunnelCommunity
+from ipv8.messaging.anonymization.endpoint import TunnelEndpoint
 from ipv8.messaging.anonymization.hidden_services import HiddenTunnelCommunity
 from ipv8.messaging.anonymization.tunnel import (
     BACKWARD,
@@ -53,6 +56,7 @@ from ipv8.messaging.anonymization.tunnel import (
     PEER_FLAG_SPEED_TEST,
 )
 from ipv8.messaging.interfaces.dispatcher.endpoint import DispatcherEndpoint
+from ipv8.messaging.interfaces.statistics_endpoint import StatisticsEndpoint
 from ipv8.messaging.interfaces.udp.endpoint import DomainAddress, UDPv4Address, UDPv6Address
 from ipv8_rust_tunnels import generate_session_keys
 
@@ -91,6 +95,10 @@ MAX_BAD_PER_GROUP = 3
 KNOWN_RELAY_EARLY = "fault-delivered|alter:relay_early-flag-unauthenticated"   # listed in known_findings.json
 
 DUAL_BENCHES = ("dsX1", "dsX2", "dsO1", "dsO2")   # exit X / originator O on a dual-stack DispatcherEndpoint, 1 and 2 hops
+# ... on TunnelEndpoint(SimEndpoint) (what ipv8_service hands out once an overlay is anonymized) and on
+# StatisticsEndpoint(SimEndpoint) (statistics enabled): wrappers through which setup_tunnels must still unregister
+# the community as a raw listener
+WRAP_BENCHES = ("teX1", "teX2", "teO1", "teO2", "seX1", "seX2", "seO1", "seO2")
 
 RETIRE_VARIANTS = ("exit", "exit-destroy", "relay", "origin")
 RETIRE_OFFSETS = (0.0, 2.5, 4.9, 5.1)       # seconds after the removal started (remove_tunnel_delay is 5 s)
@@ -963,14 +971,20 @@ class DualWorld(TunnelWorld):
     """TunnelWorld in which the nodes named in `dual` sit on a real DispatcherEndpoint with an IPv4 and an IPv6
     interface (two SimEndpoints); circuits are built over IPv4 as usual, the IPv6 address is reachable for anybody."""
 
-    def __init__(self, seed_key, roles: dict, dual: list, **kw) -> None:  # noqa: ANN001, ANN003
-        self._dual = set(dual)
+    def __init__(self, seed_key, roles: dict, special: dict, **kw) -> None:  # noqa: ANN001, ANN003
+        """special: node name -> "ds" (dual-stack dispatcher) | "te" (TunnelEndpoint wrapper) | "se" (StatisticsEndpoint)."""
+        self._special = dict(special)
         self.v6: dict[str, tuple] = {}
         super().__init__(seed_key, roles, **kw)
 
     def add_node(self, name: str, key_index: int, address=None, curve: str = "curve25519"):  # noqa: ANN001, ANN201
         node = super().add_node(name, key_index, address, curve)
-        if name in self._dual:
+        how = self._special.get(name)
+        if how == "te":      # datagrams still arrive at (and are dispatched by) the wrapped endpoint, as with a socket
+            node.endpoint = TunnelEndpoint(node.endpoint)
+        elif how == "se":
+            node.endpoint = StatisticsEndpoint(node.endpoint)
+        elif how == "ds":
             n = len(self.nodes)
             a6 = UDPv6Address(f"2001:db8::{n}", 1000 + n)
             ep6 = SimEndpoint(self, a6, name + "-v6")
@@ -986,24 +1000,27 @@ class DualWorld(TunnelWorld):
 
 
 class DualBench(Bench):
-    """Bench "dsX<h>" / "dsO<h>": the exit X or the originator O is a dual-stack node."""
+    """Bench "<kind><node><h>": the exit X or the originator O sits on a dual-stack dispatcher (ds), a TunnelEndpoint
+    wrapper (te) or a StatisticsEndpoint wrapper (se)."""
 
     def __init__(self, bid: str, seed: int) -> None:
         self.bid = bid
+        self.how = bid[:2]
         self.dual = bid[2]
         super().__init__(int(bid[3]), seed)
 
     def make_world(self) -> TunnelWorld:
-        w = DualWorld(("c04", self.seed, self.bid), ROLES, [self.dual], community_cls=RecTunnel,
+        w = DualWorld(("c04", self.seed, self.bid), ROLES, {self.dual: self.how}, community_cls=RecTunnel,
                       key_offset=self.seed % 8)
-        ov = w.ov[self.dual]
-        if not isinstance(ov.endpoint, DispatcherEndpoint) or len(ov.endpoint.interfaces) != 2:
-            raise HarnessError("dual-stack endpoint was not installed")
+        ep = w.ov[self.dual].endpoint
+        want = {"ds": DispatcherEndpoint, "te": TunnelEndpoint, "se": StatisticsEndpoint}[self.how]
+        if not isinstance(ep, want) or (self.how == "ds" and len(ep.interfaces) != 2):
+            raise HarnessError(f"{want.__name__} was not installed")
         return w
 
     def v6_address_of_receiver(self, leg: str, link: int) -> tuple:
         receiver = self.names["A"][link + 1] if leg == "f" else self.names["A"][link]
-        if receiver != self.dual:
+        if self.how != "ds" or receiver != self.dual:
             raise HarnessError(f"the receiver on {leg}{link} is {receiver}, not the dual-stack node {self.dual}")
         return self.w.v6[self.dual]
 
@@ -1015,7 +1032,7 @@ def hops_of(h) -> int:  # noqa: ANN001
 def make_bench(h, seed: int) -> Bench:  # noqa: ANN001
     if h == "e2e":
         return E2EBench(h, seed)
-    if isinstance(h, str) and h.startswith("ds"):
+    if isinstance(h, str) and h[:2] in ("ds", "te", "se"):
         return DualBench(h, seed)
     return Bench(h, seed)
 
@@ -1125,7 +1142,7 @@ def groups(thorough: bool) -> list:
                 out.append([h, f"data@{shape}", ref.SHAPE_SIZE[shape], "v4", "f", 0, "clean"])
                 out.append([h, f"data@{shape}", ref.SHAPE_SIZE[shape], "v4", "f", h - 1, "misc"])
     # dual-stack exit / originator: the same faulty cells arriving on the node's IPv4 and on its IPv6 interface
-    for bid in DUAL_BENCHES:
+    for bid in (*DUAL_BENCHES, *WRAP_BENCHES):
         hops = hops_of(bid)
         flows = ([("data", "f", hops - 1), ("ping", "f", hops - 1), ("test", "f", hops - 1)] if bid[2] == "X"
                  else [("reply", "b", 0), ("ping", "b", 0), ("test", "b", 0)])
@@ -1133,7 +1150,8 @@ def groups(thorough: bool) -> list:
             for size in ((24, 279) if thorough and kind != "ping" else (0,) if kind == "ping" else (24,)):
                 out.append([bid, kind, size, "v4", leg, 0, "clean"])
                 for fclass in ("xor", "xor6", "misc", "misc6", "clear", "clear6"):
-                    out.append([bid, kind, size, "v4", leg, link, fclass])
+                    if bid[:2] == "ds" or not fclass.endswith("6"):
+                        out.append([bid, kind, size, "v4", leg, link, fclass])
     # end-to-end (hidden service) circuit: D -> N3 -> rendezvous -> S and back
     if thorough:
         e2e_xor = sorted(set(range(0, 65)) | set(range(64, 1401, 64)) | set(QUICK_SIZES) | {1399})
@@ -1172,7 +1190,7 @@ def group_cost(g: list, thorough: bool) -> int:
 def pack_items(gs: list, thorough: bool, target: int) -> list:
     """Bins of groups with the same hop count and about `target` cases each (one bench per bin)."""
     items = []
-    for h in (1, 2, 3, "e2e", *DUAL_BENCHES):
+    for h in (1, 2, 3, "e2e", *DUAL_BENCHES, *WRAP_BENCHES):
         cur, cost = [], 0
         for g in sorted((g for g in gs if g[0] == h), key=lambda g: -group_cost(g, thorough)):
             c = group_cost(g, thorough)
@@ -1347,7 +1365,8 @@ def run(ctx: core.Ctx) -> core.Report:
         "exhaustive": aborted == 0,
         "groups_aborted_after_violations": aborted,
         "hops": [1, 2, 3, "e2e: downloader - relay - rendezvous point - seeder (3 links)",
-                 "dual-stack exit / originator (DispatcherEndpoint with IPv4 + IPv6 interface), 1 and 2 hops"],
+                 "dual-stack exit / originator (DispatcherEndpoint with IPv4 + IPv6 interface), 1 and 2 hops",
+                 "exit / originator on TunnelEndpoint(SimEndpoint) and on StatisticsEndpoint(SimEndpoint), 1 and 2 hops"],
         "links": "every link of the path, both directions",
         "clean_sizes": f"{min(g[2] for g in gs)}..{max(g[2] for g in gs)} ({len({g[2] for g in gs if g[6] == 'clean'})} "
                        "sizes) for data, reply and test flows; ipv4 / ipv6 / hostname destinations for the quick sizes",
